@@ -2,6 +2,7 @@ import QuiverModel.Core.Types.Basic
 import QuiverModel.Core.Types.Inh
 import QuiverModel.Core.Types.Narrow
 import QuiverModel.Core.Types.Shape
+import QuiverModel.Lemmas.Types.SoundMain
 /-
 C09 — Assignability implies containment; overlap detection is complete; narrowing never drops a
 value that can occur.
@@ -121,5 +122,147 @@ theorem F16_repaired : typesOverlap tF16 8 2 3 = some true := by decide
 theorem F16_wrong_name_or_type_still_disjoint :
     typesOverlap tF16 8 2 4 = some false ∧ typesOverlap tF16 8 2 5 = some false := by decide
 theorem F16_partial_never_assignable_to_tuple : isCompatible tF16 8 2 3 = some false := by decide
+
+/-! ### Part 2: assignability implies containment (first-order cycle-free types)
+
+Hypotheses, all decidable and checked by the harness on every generated table:
+`Ordered T` — no forward references (what `Program::register_*` produces when it is only given ids
+it returned before); `FO T t` — only int / bin / ref / resource / tuple / partial / union nodes are
+reachable from `t` (no `Cycle`, `Variable`, callable, process). No bound on the size of the table,
+the depth of the types or the fuel. -/
+
+/-- fuel never matters for a verdict that was given -/
+theorem compat_fuel_irrelevant (T : Table) {n m : Nat} (hnm : n ≤ m) (a b : Nat) {r : Bool}
+    (h : isCompatible T n a b = some r) : isCompatible T m a b = some r :=
+  isCompatible_mono T hnm a b h
+
+theorem overlap_fuel_irrelevant (T : Table) {n m : Nat} (hnm : n ≤ m) (a b : Nat) {r : Bool}
+    (h : typesOverlap T n a b = some r) : typesOverlap T m a b = some r :=
+  typesOverlap_mono T hnm a b h
+
+/-- inhabitation is monotone in its fuel (so `inh` = "`inhB` says yes with enough fuel") -/
+theorem inhB_fuel_mono (T : Table) {n m : Nat} (hnm : n ≤ m) (st : List Nat) (t : Nat) (v : V)
+    (h : inhB T n st t v = true) : inhB T m st t v = true :=
+  inhB_mono T hnm st t v h
+
+/-- **Soundness of assignability.** If `is_compatible(a, b)` answers `true` (with any fuel) for
+first-order cycle-free types of an ordered table, every value of `a` is a value of `b`. -/
+theorem compat_sound_fo (T : Table) (hT : Ordered T) (a b fuel : Nat) (ha : FO T a) (hb : FO T b)
+    (h : isCompatible T fuel a b = some true) : ∀ v, inh T [] a v → inh T [] b v := by
+  unfold isCompatible at h
+  cases hc : checkRel T .all fuel [] [] a b with
+  | none => simp [hc] at h
+  | some p =>
+    obtain ⟨r, asm'⟩ := p
+    rw [hc] at h
+    simp only [Option.map_some, Option.some.injEq] at h
+    subst h
+    have := checkRel_good hT fuel (a + b + 1) [] [] a b ha hb (by omega) (fun p hp => by simp at hp)
+      true asm' hc
+    exact fun v hv => this.2 rfl [] [] v hv
+
+/-- the same from an arbitrary set of already-valid assumptions and any stack (the form in which
+the relation is used below a union during narrowing) -/
+theorem checkRel_sound_fo (T : Table) (hT : Ordered T) (fuel : Nat) (asm : Asm) (st : List Nat)
+    (a b : Nat) (ha : FO T a) (hb : FO T b) (hasm : ∀ p ∈ asm, Valid T p.1 p.2) (asm' : Asm)
+    (h : checkRel T .all fuel asm st a b = some (true, asm')) :
+    (∀ v, inh T [] a v → inh T [] b v) ∧ ∀ p ∈ asm', Valid T p.1 p.2 := by
+  have := checkRel_good hT fuel (a + b + 1) asm st a b ha hb (by omega)
+    (fun p hp => Or.inl (hasm p hp)) true asm' h
+  exact ⟨fun v hv => this.2 rfl [] [] v hv, fun p hp => (this.1 p hp).elim (hasm p) id⟩
+
+/-- the hypotheses are satisfiable by a non-trivial pair: `T2[int, bin] ≤ T2[int,int] | T2[int,bin]` -/
+example : Ordered tF12 ∧ FO tF12 5 ∧ FO tF12 6 ∧ isCompatible tF12 12 5 6 = some true := by
+  refine ⟨by decide, ⟨4, by decide⟩, ⟨4, by decide⟩, by decide⟩
+
+/-- …and the theorem then gives containment for every value, e.g. `T2[7, 0x00]` -/
+example : inh tF12 [] 6 (.tup (some 2) (.cons none (.int 7) (.cons none (.bin [0]) .nil))) :=
+  compat_sound_fo tF12 (by decide) 5 6 12 ⟨4, by decide⟩ ⟨4, by decide⟩ (by decide) _ ⟨8, by decide⟩
+
+/-- chains of accepted assignments are sound (semantic transitivity of what the checker accepts) -/
+theorem compat_chain_sound_fo (T : Table) (hT : Ordered T) (a b c f1 f2 : Nat) (ha : FO T a)
+    (hb : FO T b) (hc : FO T c) (h1 : isCompatible T f1 a b = some true)
+    (h2 : isCompatible T f2 b c = some true) : ∀ v, inh T [] a v → inh T [] c v :=
+  fun v hv => compat_sound_fo T hT b c f2 hb hc h2 v (compat_sound_fo T hT a b f1 ha hb h1 v hv)
+
+/-! ### Full statements (all closed contractive types) — kept visible; see Part 4 for their status -/
+
+/-- the full soundness statement of C09 over closed contractive types -/
+def CompatSoundStatement : Prop :=
+  ∀ (T : Table) (a b fuel : Nat), Ordered T → Closed T a → Closed T b →
+    isCompatible T fuel a b = some true → ∀ v, inh T [] a v → inh T [] b v
+
+/-- assignability is transitive (as a statement about the checker's verdicts) -/
+def CompatTransStatement : Prop :=
+  ∀ (T : Table) (a b c fuel : Nat), Ordered T → Closed T a → Closed T b → Closed T c →
+    isCompatible T fuel a b = some true → isCompatible T fuel b c = some true →
+    ∃ fuel', isCompatible T fuel' a c = some true
+
+/-- overlap detection is complete (full statement) -/
+def OverlapCompleteStatement : Prop :=
+  ∀ (T : Table) (a b fuel : Nat), Ordered T → Closed T a → Closed T b →
+    (∃ v, inh T [] a v ∧ inh T [] b v) → typesOverlap T fuel a b ≠ some false
+
+/-! ### Part 4: the full statements are FALSE of the code as it is (recursive / higher-order types)
+
+Kernel-checked counter-examples; the same tables are found by the harness on the real
+`quiver_core::types` (KNOWN-FINDING R1, R2 in notes/C09.md). -/
+
+/-- R1: 0 `Nil`, 1 `^1`, 2 `A[y: ^1]`, 3 `A[y: Nil]`, 4 `A[y: ^] | A[y: Nil]`, 5 `A(y: Nil)`
+(A = 2, y = 3, Nil = 4) -/
+def tR1 : Table :=
+  ⟨[.tuple 2, .cycle 1, .tuple 3, .tuple 4, .union [2, 3], .part (some 2) [(3, 0)]],
+   [⟨none, []⟩, ⟨some 1, []⟩, ⟨some 4, []⟩, ⟨some 2, [(some 3, 1)]⟩, ⟨some 2, [(some 3, 0)]⟩]⟩
+
+/-- `A[y: A[y: Nil]]` -/
+def vR1 : V :=
+  .tup (some 2) (.cons (some 3) (.tup (some 2) (.cons (some 3) (.tup (some 4) .nil) .nil)) .nil)
+
+/-- the left-hand `^1` meets an empty right-hand stack and is accepted -/
+theorem R1_accepted : isCompatible tR1 16 4 5 = some true := by decide
+theorem R1_closed : Ordered tR1 ∧ Closed tR1 4 ∧ Closed tR1 5 :=
+  ⟨by decide, ⟨8, by decide⟩, ⟨8, by decide⟩⟩
+theorem R1_value_left : inh tR1 [] 4 vR1 := ⟨8, by decide⟩
+
+theorem R1_value_not_right : ¬ inh tR1 [] 5 vR1 := by
+  intro h
+  obtain ⟨name, fs, hv, _, hf⟩ := (inh_part (T := tR1) (t := 5) (pn := some 2) (pfs := [(3, 0)]) rfl).mp h
+  obtain ⟨q, hq, _, hqv⟩ := hf (3, 0) (by simp)
+  simp only [vR1, V.tup.injEq] at hv
+  obtain ⟨_, rfl⟩ := hv
+  simp only [VFields.toList, List.mem_cons, List.not_mem_nil, or_false] at hq
+  subst hq
+  obtain ⟨name', fs', hv', hn', _⟩ :=
+    (inh_tuple (T := tR1) (t := 0) (id := 2) (info := ⟨some 4, []⟩) rfl rfl).mp hqv
+  simp only [V.tup.injEq] at hv'
+  obtain ⟨rfl, _⟩ := hv'
+  simp at hn'
+
+/-- **the full soundness statement does not hold for recursive types** -/
+theorem compat_sound_fails_on_recursive_types : ¬ CompatSoundStatement := fun h =>
+  R1_value_not_right (h tR1 4 5 16 R1_closed.1 R1_closed.2.1 R1_closed.2.2 R1_accepted vR1 R1_value_left)
+
+/-- R2: 0 int, 1 never, 2 `@(never / int)`, 3 `@(int / int)` — the first is assignable to the
+second, a process declared with type 2 inhabits both, yet they "do not overlap" -/
+def tR2 : Table :=
+  ⟨[.integer, .union [], .process (some 1) (some 0), .process (some 0) (some 0)],
+   [⟨none, []⟩, ⟨some 1, []⟩]⟩
+
+theorem R2_assignable : isCompatible tR2 8 2 3 = some true := by decide
+theorem R2_no_overlap : typesOverlap tR2 8 2 3 = some false ∧ typesOverlap tR2 8 3 2 = some false := by
+  decide
+theorem R2_common_value : inh tR2 [] 2 (.proc 2) ∧ inh tR2 [] 3 (.proc 2) :=
+  ⟨⟨4, by decide⟩, ⟨4, by decide⟩⟩
+
+/-- **the full overlap-completeness statement does not hold for process / callable types** -/
+theorem overlap_complete_fails_on_process_types : ¬ OverlapCompleteStatement := fun h =>
+  h tR2 2 3 8 (by decide) ⟨4, by decide⟩ ⟨4, by decide⟩ ⟨.proc 2, R2_common_value⟩ R2_no_overlap.1
+
+/-- R4: 0 int, 1 `^1`, 2 never, 3 `#(^1 -> int)`, 4 `#(#(^1 -> int) -> int)`: the model, like the
+code, makes no progress on this pair (the callable arm records no assumption): every fuel runs out -/
+def tR4 : Table :=
+  ⟨[.integer, .cycle 1, .union [], .callable 1 0 2, .callable 3 0 2], [⟨none, []⟩, ⟨some 1, []⟩]⟩
+
+theorem R4_no_answer_with_64 : isCompatible tR4 64 3 4 = none := by decide
 
 end C09
